@@ -2,6 +2,7 @@ package main
 
 import (
 	"fmt"
+	"os"
 	"sort"
 	"sync"
 
@@ -15,6 +16,7 @@ import (
 type span struct {
 	lo, hi uintptr
 	who    int
+	keep   []byte // the memory stays reachable until the final comparison (no address reuse)
 }
 
 // storm: g goroutines hammer one Pool with unsynchronised Get/Put (real races
@@ -28,6 +30,7 @@ func storm(g, n int, seed uint64) {
 	pool := &byteslice.Pool{}
 	rbp := &ringbuffer.Pool{}
 	var mu sync.Mutex
+	var donatedCap sync.Map // pointer -> the slice last Put with that pointer (kept alive: its address cannot be reused)
 	var fails []string
 	var all []span
 	var wg sync.WaitGroup
@@ -61,6 +64,12 @@ func storm(g, n int, seed uint64) {
 						bad(fmt.Sprintf("shape size=%d", size))
 					}
 					f := b[:cap(b)]
+					if d, ok := donatedCap.LoadAndDelete(addr(b)); ok && cap(d.([]byte)) < cap(b) {
+						dc := cap(d.([]byte))
+						bad(fmt.Sprintf("beyond-donation cap=%d donated=%d", cap(b), dc))
+						f = b[:dc:dc] // do not write outside the donated memory
+						b = f
+					}
 					for j := range f {
 						f[j] = me
 					}
@@ -73,6 +82,7 @@ func storm(g, n int, seed uint64) {
 					if rnd.Chance(30) && cap(b) > 3 { // donate a re-sliced tail with an odd capacity
 						b = b[1+rnd.Intn(cap(b)/2):]
 					}
+					donatedCap.Store(addr(b), b[:0:cap(b)])
 					pool.Put(b)
 				}
 				if rnd.Chance(10) {
@@ -97,7 +107,7 @@ func storm(g, n int, seed uint64) {
 			mu.Lock()
 			for _, b := range held {
 				check(b)
-				all = append(all, span{addr(b), addr(b) + uintptr(cap(b)), gi})
+				all = append(all, span{addr(b), addr(b) + uintptr(cap(b)), gi, b})
 			}
 			mu.Unlock()
 			for _, b := range held {
@@ -110,6 +120,9 @@ func storm(g, n int, seed uint64) {
 	for i := 1; i < len(all); i++ {
 		if all[i].lo < all[i-1].hi {
 			fails = append(fails, "held-overlap")
+			if os.Getenv("DRV_POOL_DEBUG") != "" {
+				fmt.Fprintf(os.Stderr, "overlap: %#x+%d (g%d) and %#x+%d (g%d)\n", all[i-1].lo, all[i-1].hi-all[i-1].lo, all[i-1].who, all[i].lo, all[i].hi-all[i].lo, all[i].who)
+			}
 		}
 	}
 	if len(fails) > 0 {
